@@ -39,19 +39,26 @@ enum WEnd {
     FinishAfterError,
 }
 
-fn reference_bytes(script: &[WOp]) -> Vec<u8> {
+fn reference_bytes_here(script: &[WOp], payload: Payload) -> Vec<u8> {
     let mut w = bgzf::io::Writer::new(Vec::new());
     let mut off = 0u64;
     for op in script {
         match *op {
             WOp::W(n) => {
-                w.write_all(&ob::payload(Payload::Zeros, off, n)).unwrap();
+                w.write_all(&ob::payload(payload, off, n)).unwrap();
                 off += n as u64;
             }
             WOp::F => w.flush().unwrap(),
         }
     }
     w.finish().unwrap()
+}
+
+/// The single-threaded writer's file for a script, produced on a brand-new thread so that nothing
+/// the calling thread did before can influence it.
+fn reference_bytes(script: &[WOp], payload: Payload) -> Vec<u8> {
+    let script = script.to_vec();
+    std::thread::spawn(move || reference_bytes_here(&script, payload)).join().expect("reference writer")
 }
 
 fn check_info(info: &RunInfo, describe: &dyn Fn() -> String) -> Outcome {
@@ -100,9 +107,15 @@ fn sink_sticky(s: &FaultSink) -> bool {
     s.is_sticky()
 }
 
+thread_local! {
+    /// Harness-level switch: model the pool as long-lived worker threads (per-thread state of the tasks' code).
+    static STICKY: std::cell::Cell<bool> = const { std::cell::Cell::new(false) };
+}
+
 struct WScript {
     name: &'static str,
     ops: Vec<WOp>,
+    payload: Payload,
     reference: Vec<u8>,
 }
 
@@ -149,7 +162,10 @@ fn writer_body_with(ch: &Chooser, scripts: &[WScript], pools: &[usize], ends: &[
 
     let sink2 = sink.clone();
     let ops = script.ops.clone();
-    let caught = vmc::catch(|| vrt::run(ch, RtConfig::new(pool, cost), move || {
+    let payload = script.payload;
+    let mut rtc = RtConfig::new(pool, cost);
+    rtc.sticky_workers = STICKY.with(|k| k.get());
+    let caught = vmc::catch(|| vrt::run(ch, rtc, move || {
         let mut log = Log { results: Vec::new(), injected_seen: false, other_err: None, finished_ok: false };
         let mut w = bgzf::io::MultithreadedWriter::new(sink2);
         let mut off = 0u64;
@@ -169,7 +185,7 @@ fn writer_body_with(ch: &Chooser, scripts: &[WScript], pools: &[usize], ends: &[
         for op in &ops {
             let r = match *op {
                 WOp::W(n) => {
-                    let d = ob::payload(Payload::Zeros, off, n);
+                    let d = ob::payload(payload, off, n);
                     off += n as u64;
                     let r = w.write_all(&d);
                     note(&mut log, format!("write_all({n})"), r)
@@ -728,7 +744,8 @@ fn main() {
         ctx.assume("the model channel/pool/thread primitives of noodles_bgzf::verif behave like crossbeam-channel, rayon::spawn and std::thread (bound by the conformance harness and the free-running pass)");
         ctx.assume("scheduling points are whole channel operations, spawns, joins and channel-end drops; the code under test has no other shared state (no unsafe, atomics or locks)");
 
-        let mk = |name: &'static str, ops: Vec<WOp>| WScript { name, reference: reference_bytes(&ops), ops };
+        let mkp = |name: &'static str, payload: Payload, ops: Vec<WOp>| WScript { name, reference: reference_bytes(&ops, payload), ops, payload };
+        let mk = |name: &'static str, ops: Vec<WOp>| mkp(name, Payload::Zeros, ops);
         let scripts_q = vec![
             mk("3-flushes", vec![W(5), F, W(5), F, W(1)]),
             mk("staging-full", vec![W(65496), W(5)]),
@@ -768,6 +785,47 @@ fn main() {
         ctx.harness(Config::new("writer_short_sinks", ctx.by_tier(1, 2)), |ch| {
             writer_body_with(ch, &scripts_q[..3], &pools[..2], &[WEnd::Finish, WEnd::Drop], false, CostModel::Preempt, &[SinkMode::OneByte, SinkMode::Half, SinkMode::Alternating])
         });
+        // W5: per-thread state in the compression path. The pool is modelled as long-lived workers (a
+        // starting task may land on any idle one), the first block is incompressible (level-0 fallback),
+        // the rest compresses well: the file must not depend on which worker compressed which block.
+        {
+            let scripts_m = vec![
+                mkp("incompressible-then-zeros", Payload::RandomBlockThenZeros, vec![W(65495), W(70000)]),
+                mkp("incompressible-flush-zeros", Payload::RandomBlockThenZeros, vec![W(65495), F, W(10), F, W(10)]),
+                mkp("random-2-blocks", Payload::Random, vec![W(65495 + 100)]),
+            ];
+            // the single-threaded writer's own output must be a function of the script alone
+            let hist: Vec<&WScript> = scripts_m.iter().chain(scripts_q.iter()).collect();
+            let names: Vec<String> = hist.iter().map(|s| format!("script={} ops={:?}", s.name, s.ops)).collect();
+            ctx.sweep("single_threaded_output_history", hist.len() as u64, |i| names[i as usize].clone(), |i| {
+                let sc = hist[i as usize];
+                let (ops, payload) = (sc.ops.clone(), sc.payload);
+                let dirty = std::thread::spawn(move || {
+                    let _ = reference_bytes_here(&[W(65495)], Payload::Random);
+                    let _ = reference_bytes_here(&[W(100)], Payload::Zeros);
+                    reference_bytes_here(&ops, payload)
+                })
+                .join()
+                .expect("writer thread");
+                if dirty != sc.reference {
+                    return Err(Violation::new(
+                        "writer symptom=single-threaded-output-depends-on-thread-history",
+                        format!("script={} ops={:?} after writing an incompressible file on the same thread", sc.name, sc.ops),
+                        "same bytes as on a brand-new thread",
+                        vmc::diff_bytes(&sc.reference, &dirty),
+                    ));
+                }
+                Ok(())
+            });
+            let quick = !ctx.thorough();
+            ctx.harness(Config::new("writer_sticky_workers", ctx.by_tier(1, 2)), |ch| {
+                STICKY.with(|k| k.set(true));
+                let (sm, pl): (&[WScript], &[usize]) = if quick { (&scripts_m[..2], &[2, 3]) } else { (&scripts_m, &[2, 3, 1]) };
+                let r = writer_body(ch, sm, pl, &[WEnd::Finish], false, CostModel::Preempt);
+                STICKY.with(|k| k.set(false));
+                r
+            });
+        }
         if ctx.thorough() {
             let scripts_t = vec![
                 mk("4-flushes", vec![W(5), F, W(5), F, W(1), F, W(2)]),
